@@ -18,7 +18,7 @@ class TranslateError(Exception):
     pass
 
 
-RENAME = {'T': 'Tv', 'R': 'Rv', 'lt': 'lt_'}
+RENAME = {'T': 'Tv', 'R': 'Rv', 'lt': 'lt_', 'PI': 'PIc'}
 FUNCS = {'exp': 'exp', 'log': 'ln', 'sqrt': 'sqrt'}
 
 
@@ -26,26 +26,38 @@ def _name(n):
     return RENAME.get(n, n)
 
 
-def _expr(e, loopvar=None):
+class Ctx:
+    """per-module translation state: source text (decimal literals are read as written: 1e-6 means 1/1000000, the
+    real-number reading of the code), module functions that may be called, definitions emitted so far"""
+    def __init__(self, src, funcs, consts):
+        self.src, self.funcs, self.consts = src, funcs, list(consts)
+        self.defs, self.done = [], {}
+
+
+def _expr(e, loopvar=None, cx=None):
     if isinstance(e, ast.Name):
         return _name(e.id)
     if isinstance(e, ast.Constant) and isinstance(e.value, (int, float)) and not isinstance(e.value, bool):
-        f = Fraction(e.value)
+        text = ast.get_source_segment(cx.src, e) if cx is not None else None
+        try:
+            f = Fraction(text) if text else Fraction(e.value)
+        except (ValueError, ZeroDivisionError):
+            f = Fraction(e.value)
         if f.denominator == 1:
             return '%d' % f.numerator if f.numerator >= 0 else '(- %d)' % -f.numerator
         return '(%d / %d)' % (f.numerator, f.denominator)
     if isinstance(e, ast.UnaryOp) and isinstance(e.op, ast.USub):
-        return '(- %s)' % _expr(e.operand, loopvar)
+        return '(- %s)' % _expr(e.operand, loopvar, cx)
     if isinstance(e, ast.BinOp):
         if isinstance(e.op, ast.Pow):
             if isinstance(e.right, ast.Constant) and isinstance(e.right.value, int) and 0 < e.right.value <= 8:
-                b = _expr(e.left, loopvar)
+                b = _expr(e.left, loopvar, cx)
                 return '(' + ' * '.join([b] * e.right.value) + ')'
             raise TranslateError('unsupported power %s' % ast.dump(e.right))
         op = {ast.Add: '+', ast.Sub: '-', ast.Mult: '*', ast.Div: '/'}.get(type(e.op))
         if op is None:
             raise TranslateError('unsupported operator %s' % type(e.op).__name__)
-        return '(%s %s %s)' % (_expr(e.left, loopvar), op, _expr(e.right, loopvar))
+        return '(%s %s %s)' % (_expr(e.left, loopvar, cx), op, _expr(e.right, loopvar, cx))
     if isinstance(e, ast.Subscript):
         idx = e.slice
         if isinstance(idx, ast.Name) and idx.id == loopvar and isinstance(e.value, ast.Name):
@@ -55,7 +67,11 @@ def _expr(e, loopvar=None):
         return 'PI'
     if isinstance(e, ast.Call) and isinstance(e.func, ast.Attribute) and isinstance(e.func.value, ast.Name) \
             and e.func.value.id in ('np', 'numpy', 'math') and e.func.attr in FUNCS and len(e.args) == 1 and not e.keywords:
-        return '(%s %s)' % (FUNCS[e.func.attr], _expr(e.args[0], loopvar))
+        return '(%s %s)' % (FUNCS[e.func.attr], _expr(e.args[0], loopvar, cx))
+    if isinstance(e, ast.Call) and isinstance(e.func, ast.Name) and cx is not None and e.func.id in cx.funcs and not e.keywords:
+        # a call of another arithmetic function of the same module: translated too, applied to the constants and arguments
+        name = _translate_fn(cx, e.func.id)
+        return '(%s %s)' % (name, ' '.join([_name(c) for c in cx.consts] + [_expr(a, loopvar, cx) for a in e.args]))
     raise TranslateError('unsupported expression %s' % ast.dump(e)[:200])
 
 
@@ -75,13 +91,15 @@ def resolve(tree, name):
     return name, funcs[name]
 
 
-def translate(path, func, coq_name):
-    """-> (resolved python name, Coq definition text)"""
-    tree = ast.parse(open(path).read())
-    pyname, fn = resolve(tree, func)
+def _translate_fn(cx, pyname, coq_name=None):
+    if pyname in cx.done:
+        return cx.done[pyname]
+    coq_name = coq_name or 'gen_' + pyname.lstrip('_')
+    cx.done[pyname] = coq_name
+    fn = cx.funcs[pyname]
     if fn.args.vararg or fn.args.kwarg or fn.args.kwonlyargs:
         raise TranslateError('unsupported signature')
-    params = [_name(a.arg) for a in fn.args.args]
+    params = [_name(c) for c in cx.consts] + [_name(a.arg) for a in fn.args.args]
     lets, result = [], None
     skipped = set()
     for st in fn.body:
@@ -92,31 +110,43 @@ def translate(path, func, coq_name):
             if isinstance(v, ast.Subscript) and isinstance(v.value, ast.Attribute) and v.value.attr == 'shape':
                 skipped.add(st.targets[0].id)
                 continue
-            if isinstance(v, ast.Call) and isinstance(v.func, ast.Attribute) and v.func.attr == 'zeros_like':
+            if isinstance(v, ast.Call) and isinstance(v.func, ast.Attribute) and v.func.attr in ('zeros_like', 'empty_like'):
                 skipped.add(st.targets[0].id)
                 continue
-            lets.append((_name(st.targets[0].id), _expr(v)))
+            lets.append((_name(st.targets[0].id), _expr(v, None, cx)))
             continue
         if isinstance(st, ast.For) and isinstance(st.target, ast.Name) and len(st.body) == 1 and not st.orelse:
             b = st.body[0]
             if isinstance(b, ast.Assign) and len(b.targets) == 1 and isinstance(b.targets[0], ast.Subscript) and \
                     isinstance(b.targets[0].value, ast.Name) and b.targets[0].value.id in skipped:
-                result = _expr(b.value, loopvar=st.target.id)
+                result = _expr(b.value, st.target.id, cx)
                 continue
             raise TranslateError('unsupported loop body')
         if isinstance(st, ast.Return):
             if isinstance(st.value, ast.Name) and st.value.id in skipped and result is not None:
                 break
-            result = _expr(st.value)
+            result = _expr(st.value, None, cx)
             break
         raise TranslateError('unsupported statement %s' % type(st).__name__)
     if result is None:
         raise TranslateError('no result expression')
     body = ''.join('let %s := %s in\n    ' % l for l in lets) + result
-    text = 'Definition %s (%s : R) : R :=\n    %s.\n' % (coq_name, ' '.join(params), body)
-    return pyname, text
+    cx.defs.append('Definition %s (%s : R) : R :=\n    %s.\n' % (coq_name, ' '.join(params), body))
+    return coq_name
+
+
+def translate(path, func, coq_name, consts=()):
+    """-> (resolved python name, Coq definitions text: the function and the module functions it calls).
+    consts: module-level names used as constants; they become leading parameters of every generated definition"""
+    src = open(path).read()
+    tree = ast.parse(src)
+    pyname, _ = resolve(tree, func)
+    funcs = {n.name: n for n in tree.body if isinstance(n, ast.FunctionDef)}
+    cx = Ctx(src, funcs, consts)
+    _translate_fn(cx, pyname, coq_name)
+    return pyname, ''.join(cx.defs)
 
 
 if __name__ == '__main__':
     import sys
-    print(translate(sys.argv[1], sys.argv[2], 'gen_' + sys.argv[2])[1])
+    print(translate(sys.argv[1], sys.argv[2], 'gen_' + sys.argv[2], consts=sys.argv[3:])[1])
